@@ -1,7 +1,9 @@
 (* C16: save never reports success for an incomplete file.
-   The output device is modelled as accepting at most [limit] bytes (Serial.fs_save); when libstdc++
-   notices the failed write(2) is runtime behaviour observed on the implementation side (partial). *)
-From X Require Import Base Arr Dac Trie Serial SerialFacts Examples.
+   Two device models: Serial.fs_save (a device accepting at most [limit] bytes) and Stream.save_dev (the
+   stream as a state machine with a sticky error state: the visitor's write calls and the final flush against
+   an ARBITRARY schedule of per-call acceptances, for ANY cutting of the file into write calls).  When
+   libstdc++ notices a failed write(2) is runtime behaviour observed on the implementation side (partial). *)
+From X Require Import Base Arr Dac Trie Serial SerialFacts Stream StreamFacts Examples.
 Local Open Scope N_scope.
 
 Theorem C16_fail_or_complete : forall v P target l, target <> NoParent -> target <> Dir ->
@@ -19,9 +21,43 @@ Theorem C16_unopenable_target : forall v P target l,
   (target = NoParent \/ target = Dir -> forall lim, fs_save v P target lim = Exc OpenFail).
 Proof. exact fs_save_spec. Qed.
 
+(* any cutting of the file into write calls, any schedule of refusals (transient or permanent), any flush
+   outcome: an exception if some issued call or the flush was refused, otherwise the complete file *)
+Theorem C16_any_chunking_any_schedule : forall v P target cs sched fl, concat cs = save v P ->
+  target <> NoParent -> target <> Dir ->
+  save_stream target cs sched fl =
+    if refused cs sched || negb fl then Exc WriteFail else Ok (lenN (save v P), save v P).
+Proof. exact save_any_chunking. Qed.
+(* the visitor's own write sequence is such a cutting *)
+Theorem C16_visitor_chunks : forall v P, concat (save_chunks v P) = save v P.
+Proof. exact save_chunks_concat. Qed.
+Theorem C16_refusal_throws : forall v P target sched fl, target <> NoParent -> target <> Dir ->
+  refused (save_chunks v P) sched = true \/ fl = false ->
+  save_dev v P target sched fl = Exc WriteFail.
+Proof. exact save_dev_refusal_throws. Qed.
+Theorem C16_normal_return_is_complete : forall v P target sched fl n b, trie_fits v P ->
+  save_dev v P target sched fl = Ok (n, b) ->
+  b = save v P /\ n = memory_in_bytes v P /\ fs_load v (File b) = Ok P /\ fs_type_id (File b) = Ok (type_id v)
+  /\ refused (save_chunks v P) sched = false /\ fl = true.
+Proof. exact save_dev_ok_complete. Qed.
+(* the capacity device (permanent) and the transient refusal are instances with the same outcome *)
+Theorem C16_capacity_schedules : forall v P target l, target <> NoParent -> target <> Dir ->
+  save_dev v P target (sched_cap (save_chunks v P) l) true = fs_save v P target (Some l) /\
+  save_dev v P target (sched_transient (save_chunks v P) l) true = fs_save v P target (Some l).
+Proof. exact save_dev_capacity. Qed.
+
+Example C16_stream_nonvacuous : match ex_trie V8 with
+  | Ok P => save_dev V8 P Missing [None; None; Some 3; None] true = Exc WriteFail /\
+            save_dev V8 P Missing [None; Some 8] false = Exc WriteFail /\
+            (exists n b, save_dev V8 P Missing [] true = Ok (n, b))
+  | _ => False end.
+Proof. vm_compute. split; [reflexivity|]. split; [reflexivity|]. eexists; eexists; reflexivity. Qed.
+
 Example C16_nonvacuous : match ex_trie V8 with
   | Ok P => fs_save V8 P Missing (Some 100) = Exc WriteFail /\ fs_save V8 P Dir None = Exc OpenFail
   | _ => False end.
 Proof. vm_compute. split; reflexivity. Qed.
 
 Print Assumptions C16_fail_or_complete. Print Assumptions C16_ok_means_complete. Print Assumptions C16_unopenable_target.
+Print Assumptions C16_any_chunking_any_schedule. Print Assumptions C16_visitor_chunks. Print Assumptions C16_refusal_throws.
+Print Assumptions C16_normal_return_is_complete. Print Assumptions C16_capacity_schedules.
